@@ -205,7 +205,10 @@ def gen_unc(rs, cplx, mkind, boundary=False):
     bb = np.diag(b) if rs.random() < 0.25 else b
     kk = np.diag(k) if rs.random() < 0.25 else k
     rb = None if rbmode == "auto" else _idx(cls, "rb")
-    if rb is not None and rs.random() < 0.3:
+    if rb is not None and len(rb) >= 2 and rs.random() < 0.4:
+        # an index vector need not be ascending (finding F36: the masses were paired with the wrong rows)
+        rb = [rb[i] for i in rs.permutation(len(rb))]
+    elif rb is not None and rs.random() < 0.3:
         v = np.zeros(n, bool)
         v[rb] = True
         rb = v  # bool partition vector form
@@ -262,6 +265,8 @@ def gen_coup(rs, cplx, mkind):
     else:
         mm = M
     rbmode = "auto" if rs.random() < 0.5 else "explicit"
+    if rbmode == "explicit" and len(rb) >= 2 and rs.random() < 0.4:
+        rb = [rb[i] for i in rs.permutation(len(rb))]
     return {
         "m": mm, "b": B, "k": K, "rb": None if rbmode == "auto" else rb, "rf": rf or None, "pre_eig": False,
         "cls": cls, "unc": False, "cplx": cplx, "mkind": mkind, "boundary": False,
